@@ -172,8 +172,9 @@ PROPS = {
         "level": "proof",
         "design_ref": "DESIGN.md section 0.2 / section 8, C10",
         "trusted_base": [
-            "map_reconcile_keys and prepare_map_evaluation_slots preserve EntryInv (schedule_context.storage == this, .slot == slot) and "
-            "PW (a remembered pulled deadline is in the heap) and only create/stop children (not under contract yet)",
+            "map_reconcile_keys preserves EntryInv (schedule_context.storage == this, .slot == slot; established by "
+            "create_entry_at_slot, proved) and PW (a remembered pulled deadline is in the heap; preserved by "
+            "prepare_map_evaluation_slots and push_pulled_child_schedule, proved)",
             "child GraphView::evaluate/stop follow the graph.cpp contracts (C02/C14): evaluate leaves the cached next time MAX_DT or "
             "strictly future, may push out-of-band schedules (the heap only grows), touches no other child",
             "std::push_heap/pop_heap/front with std::greater<> implement a bag with a minimum (library model)",
@@ -181,8 +182,8 @@ PROPS = {
             "capture_node_error / make_node_error_value carry the node, time and message they are given (node_error.cpp)",
         ],
         "assumptions": [],
-        "not_decided": ["the output key set mirrors the input key set (key reconciliation: map_reconcile_keys, create_entry_at_slot, "
-                        "remove_entry_at_slot's output erase) -- not under contract",
+        "not_decided": ["map_reconcile_keys as a whole (source re-pointing, incompatible key-source replacement, retired generations); "
+                        "reconcile_compatible_key_source, create_entry_at_slot and remove_entry_at_slot are under contract",
                         "each key's stream equals the mapped function run alone; fresh state after re-add; isolation of state (relational)",
                         "schedule coverage across a pause/resume of the evaluation loop (only the positions visited by one call)",
                         "tsl_map_node.cpp, mesh_node.cpp"],
